@@ -71,7 +71,18 @@ fn decode(h: &MsgHeader) -> Result<nexrad_decode::messages::message_header::Mess
         }
         return Ok(first);
     }
-    decode_message_header(&mut &b[..]).map_err(|e| format!("{e:?}"))
+    let clean = decode_message_header(&mut &b[..]).map_err(|e| format!("{e:?}"))?;
+    if key % 4 == 1 {
+        // a reader that fails once, transiently, inside the header: an error is fine, the right
+        // header is fine, a header put together from other bytes is not
+        let raw = |h: &nexrad_decode::messages::message_header::MessageHeader| (h.segment_size, h.redundant_channel, h.message_type, h.sequence_number, h.date, h.time, h.segment_count, h.segment_number);
+        match super::decode_through_flaky_reader(&b, key, |rd| decode_message_header(rd)) {
+            Err(p) => return Err(format!("panic with a reader that fails transiently: {p}")),
+            Ok(Some(h2)) if raw(&h2) != raw(&clean) => return Err(format!("a transient read error inside the header yields a header decoded from other bytes: {:?} instead of {:?}", raw(&h2), raw(&clean))),
+            _ => {}
+        }
+    }
+    Ok(clean)
 }
 
 fn base_header() -> MsgHeader {
